@@ -52,6 +52,21 @@ func sortDirection(fn *ssa.Function) (dir, key string, ok bool) {
 	return "", "", false
 }
 
+// aggregatorSort finds the key-pair sort method SingleCommits.Aggregate calls
+// before it fixes the aggregation-bit positions.
+func aggregatorSort(p *Program) string {
+	agg := p.Fn("pkg/consensus/certificate.(SingleCommits).Aggregate")
+	if agg == nil {
+		return "pkg/consensus/certificate.(SingleCommits).Aggregate"
+	}
+	for _, call := range AllCalls(agg) {
+		if g := call.Common().StaticCallee(); g != nil && strings.HasPrefix(FuncKey(g), "pkg/consensus/certificate.(*AddressKeyPairs).") && sortClosure(g) != nil {
+			return FuncKey(g)
+		}
+	}
+	return "pkg/consensus/certificate.(SingleCommits).Aggregate"
+}
+
 // sortClosure returns the less-function passed to sort.Slice in fn.
 func sortClosure(fn *ssa.Function) *ssa.Function {
 	for _, s := range CallsIn(fn, "sort.Slice") {
@@ -278,7 +293,7 @@ func runC06(c *Ctx) {
 		type cmpSite struct{ name, fn string }
 		sites := []cmpSite{
 			{"verifier (ValidatorsWithBLSKey.sort)", "pkg/consensus.(*ValidatorsWithBLSKey).sort"},
-			{"aggregator (AddressKeyPairs.Sort)", "pkg/consensus/certificate.(*AddressKeyPairs).Sort"},
+			{"aggregator (sort used by SingleCommits.Aggregate)", aggregatorSort(p)},
 			{"validators hash (ComputeValidatorsHash)", "pkg/consensus/validator.ComputeValidatorsHash"},
 		}
 		dirs := map[string]string{}
